@@ -93,7 +93,7 @@ pub open spec fn prefix_matches(mb: Metablock, j: int, short: Seq<char>) -> bool
             }
 //@end
 
-//@extract src/verifylib.rs fn:verify_link_signature_thresholds_step props=C02,C13,C14
+//@extract src/verifylib.rs fn:verify_link_signature_thresholds_step props=C02,C13,C15,C14
 //@contract ret=r
 //@include contracts/thresholds_step.rs
 //@before /let mut metablocks = HashMap::new\(\);/
